@@ -42,6 +42,20 @@ class B:
             self.op(op='rev', map=dict(self.revs))
         return self.cur
 
+    def overlap(self, root, render, max_reqs=4):
+        """while the current simulated process stays alive (parked), another process builds a chain over the same store, computes part
+        of it and ends; the current process then goes on with what it holds in memory and finds on disk"""
+        a = self.cur
+        k = self.n
+        self.op(op='wait', k=k, run=f'n{k}')
+        self.proc(hs=(a.get('hs', 0) + 1 + self.rr.randrange(2)) % 3, nested=True, id=f'n{k}')
+        cid = self.build(root, render)
+        names = self.names(cid)
+        for n in self.rr.sample(names, min(len(names), self.rr.randint(1, max_reqs))):
+            self.req(cid, n)
+        self.cur = a
+        return cid
+
     def bump(self, cid, names, p=0.5):
         """the external resource read by (some of) these tasks changes: what is stored stays what it is until somebody forces"""
         if not self.use_rev or self.rr.random() >= p:
@@ -375,11 +389,15 @@ def gen_c04(r, knobs=None):
     b = B(world, r)
     nproc = r.randint(1, 4)
     shared_reg = r.random() < 0.3      # chains of a process built over one shared task registry (as MultiChain does)
+    overlap_on = b.rr.random() < 0.4
     for pi in range(nproc):
         b.proc(hs=r.choice([0, 0, 1, 2]))
         live = []
         for _ in range(r.randint(2, 12)):
             t = r.random()
+            if live and overlap_on and b.rr.random() < 0.15:
+                # another process computes on the same store while this one is alive (a session left open, a batch job alongside)
+                b.overlap(b.chain_info[b.rr.choice(live)][0], {'form': 'mem'})
             if not live or t < 0.2:
                 root = r.randrange(len(world['roots']))
                 rt = world['roots'][root]
